@@ -330,7 +330,7 @@ MQ = [R + 'messageq.c']
 prop('C10',
      'exh: every history of length 7 (quick) / 9 (thorough) over {claim, send oldest claimed, send newest claimed, '
      'receive, release} for every depth 1..32 x message sizes {1,3,4,8,33} x slack {0,1,size-1}; rand: histories of '
-     '3*depth..20*depth operations for every depth 1..32 x sizes {1,2,3,4,5,7,8,12,16,24,33,100,255,256,1000,2115,4096,16384,65535} x slack '
+     '3*depth..20*depth operations (one in six: 1200-2000 operations, so that more than 256 claims are made) for every depth 1..32 x sizes {1,2,3,4,5,7,8,12,16,24,33,100,255,256,1000,2115,4096,16384,65535} x slack '
      '{0,1,size-1}, sends permuted among claimed messages, three fill-level biases; every history runs on a queue made '
      'by messageq_init and on a twin made by MESSAGEQ_VAR_INIT. Non-trivial = history that wraps the slot index (or '
      'hits a full queue) and sends out of claim order; distinct by construction (exh) / hash of geometry+history.',
@@ -339,7 +339,8 @@ prop('C10',
             needs_min={'exhaustive_histories_executed': 100000}, timeout={'quick': 600, 'thorough': 7200}),
       Stage('rand', ['harness/mq_seq.c'], MQ, preset='asan', nproc=16,
             args={'quick': ['--extra', 'rand'], 'thorough': ['--extra', 'rand']},
-            needs_min={'histories_nontrivial': 10000, 'histories_with_claim_on_full_queue': 10000}),
+            needs_min={'histories_nontrivial': 10000, 'histories_with_claim_on_full_queue': 10000,
+                       'histories_with_more_than_300_claims': 2000}),
       Stage('rand-clang-O2', ['harness/mq_seq.c'], MQ, preset='asan-O2', cc='clang', nproc=16, tiers=('thorough',),
             args={'thorough': ['--extra', 'rand', '--cases', '1000000']})],
      assumptions=['releases are issued in receive order (the API documents strict order); sends may be reordered '
